@@ -71,7 +71,8 @@ def item_grid(s, nmax, pretties=(False, True), kmax=3, full=True, inters=(False,
                         if k != pos:
                             st.append(B.item('only-elsewhere', 'an item ID the addressed story does not have'))
                         if item_names:
-                            for el, newid in zip([c for c in st if c.tag == 'item'], item_names):
+                            # (the first cnt items only: 'only-elsewhere' keeps its name)
+                            for el, newid in zip([c for c in st if c.tag == 'item'][:cnt], item_names):
                                 el.find('itemID').text = newid
                         stories.append(st)
                     ro_txt = B.ro_doc('RO', 1, stories, ed_start='2020-01-01T12:30:00', pretty=pretty)
